@@ -37,7 +37,11 @@ CLAIM = {
              "posting parser on a suffix of the text), posting_written / text_written (`balance = some X` iff the line has `=`, "
              "blanks and a text the expression parser reads as X at that place; `amount = none` iff nothing but `=`, `;`, a line end "
              "or the end of text stands where the amount would). NOT proved: equality of the parser model with the Rust parser "
-             "(correspondence-checked by C05/C06/C14)."),
+             "(correspondence-checked by C05/C06/C14). COMMAND level (Props/C02Cmd.lean over Model/CmdText.lean, the command-text model C13 compares byte for byte with the binary): "
+             "C02_cmd_balance_range / C02_cmd_range_irrelevant / C02_cmd_register_same_verdict / C02_cmd_balance_x - a book-keeping error "
+             "(a false assertion among them) fails `okane balance`, `okane register` and `okane balance -X` with the index of the offending entry and "
+             "its message under EVERY --start/--end, account filter and conversion option: the range selects what is reported, never what "
+             "is checked; the real binary is run with such ranges on rejected ledgers on every run."),
     "note": ("modelled, not verified: rust_decimal (exact rationals); the correspondence stream and the oracle consume the implementation's tree, the text-level theorems use the parser model (Model/Parse.lean, tied to the real parser by C05/C06/C14), "
              "aliases/includes are covered by C12/C11's own checks; the posting an error points at is recovered from the span in the error value."),
     "design_ref": "DESIGN.md section 6, C02",
@@ -54,8 +58,11 @@ THEOREMS = ["Okane.C02_holds", "Okane.C02_reject", "Okane.C02_diff", "Okane.C02_
             "Okane.BookText.loopSyntax_split", "Okane.BookText.resolvePosting_ok", "Okane.BookText.loopSyntax_resolved",
             "Okane.BookText.txnRun_of_accepted", "Okane.BookText.loopSyntax_frame",
             "Okane.BookText.posting_readFrom", "Okane.BookText.posting_written", "Okane.BookText.text_written",
-            "Okane.C02Text.reject_hyps_of_check", "Okane.C02Text.rejectSum_hyps_of_check", "Okane.C02Text.after_hyps_of_check"]
-EXTRA_IMPORTS = ["Okane.Props.C02Text"]
+            "Okane.C02Text.reject_hyps_of_check", "Okane.C02Text.rejectSum_hyps_of_check", "Okane.C02Text.after_hyps_of_check",
+            # command level (Props/C02Cmd.lean over Model/CmdText.lean)
+            "Okane.CmdText.C02_cmd_balance_range", "Okane.CmdText.C02_cmd_range_irrelevant",
+            "Okane.CmdText.C02_cmd_register_same_verdict", "Okane.CmdText.C02_cmd_balance_x"]
+EXTRA_IMPORTS = ["Okane.Props.C02Text", "Okane.Props.C02Cmd"]
 
 FLAVORS = ["assert", "assert-false", "assert-cost", "cancel-assert", "assign", "assign-zero", "omitted", "multi-omitted", "plain", "expr"]
 
